@@ -572,6 +572,41 @@ impl CompressorOxide {
     }
 }
 
+/// Snapshot of internal compressor fields for the external verification harness.
+#[cfg(feature = "verif-hooks")]
+#[derive(Debug, Copy, Clone, PartialEq, Eq, Hash)]
+pub struct VerifDeflateProbe {
+    pub flush_remaining: u32,
+    pub saved_match_len: u32,
+    pub lookahead_size: usize,
+    pub lookahead_pos: usize,
+    pub lz_total_bytes: u32,
+    pub lz_code_position: usize,
+    pub block_index: u32,
+    pub finished: bool,
+    pub dict_size: usize,
+    pub saved_bits_in: u32,
+}
+
+/// Read-only observation hooks for the external verification harness.
+#[cfg(feature = "verif-hooks")]
+impl CompressorOxide {
+    pub fn verif_probe(&self) -> VerifDeflateProbe {
+        VerifDeflateProbe {
+            flush_remaining: self.params.flush_remaining,
+            saved_match_len: self.params.saved_match_len,
+            lookahead_size: self.dict.lookahead_size,
+            lookahead_pos: self.dict.lookahead_pos,
+            lz_total_bytes: self.lz.total_bytes,
+            lz_code_position: self.lz.code_position,
+            block_index: self.params.block_index,
+            finished: self.params.finished,
+            dict_size: self.dict.size,
+            saved_bits_in: self.params.saved_bits_in,
+        }
+    }
+}
+
 impl Default for CompressorOxide {
     /// Initialize the compressor with a level of 4, zlib wrapper and
     /// the default strategy.
